@@ -215,6 +215,7 @@ def o_chain(gs):
 def o_repeat(g):
     def it(ctx):
         while True:
+            ctx.pull()  # a pass counts against the oracle's budget
             empty = True
             for x in g(ctx):
                 empty = False
@@ -227,6 +228,7 @@ def o_repeat(g):
 def o_aggregate(g, init, f):
     def it(ctx):
         st = init
+        ctx.pull()      # an element that costs no source pull: it still counts against the oracle's budget
         yield st
         for x in g(ctx):
             st = f(ctx, st, x)
